@@ -97,6 +97,9 @@ var (
 	errExecutorConfigMustBeStringOrMap = errors.New(
 		"executor config must be string or map",
 	)
+	errInvalidScheduleKey = errors.New(
+		"schedule key must be start, stop or restart",
+	)
 	errNullElement = errors.New(
 		"steps, functions and preconditions must not contain null elements",
 	)
